@@ -71,7 +71,7 @@ def generate(seed, index, tier):
         nevo = rng.choice([0, 1, 1, 2, 2])
         labels = []
         for i in range(nevo):
-            label = '%s_x%d' % (a, i + 1)
+            label = '%s_%sx%d' % (a, 'zyxw'[i], i + 1)
             mut = {'op': 'AddField', 'model': 'Item', 'field': {
                 'name': 'f%d' % (i + 1), 'kind': 'Integer',
                 'attrs': {'null': True}}}
